@@ -91,6 +91,44 @@ def _written_names(raw):
     return out
 
 
+def _same_var(a, b):
+    return isinstance(a, dict) and isinstance(b, dict) and a.get("k") == "ref" and b.get("k") == "ref" and a.get("id") == b.get("id") \
+        and a.get("n") == b.get("n")
+
+
+def _inout_param(B, i, g):
+    """(param id, receiving variable) when the call element i of block B is used as `v = call(..)` (v a plain variable) and every
+    return statement of g returns one and the same by-value parameter."""
+    recv = None
+    for e in B["elems"][i + 1:]:
+        x = e["x"]
+        if isinstance(x, dict) and x.get("k") == "bin" and x.get("op") == "=":
+            r = strip_casts(x["r"])
+            l = strip_casts(x["l"])
+            if isinstance(r, dict) and r.get("k") == "elem" and r["b"] == B["id"] and r["i"] == i and isinstance(l, dict) and l.get("k") == "ref":
+                recv = l
+                break
+    if recv is None:
+        return None
+    pid = None
+    for gb in g["cfg"]["blocks"]:
+        for ge in gb["elems"]:
+            gx = ge["x"]
+            if isinstance(gx, dict) and gx.get("k") == "ret":
+                r = gx.get("e")
+                if isinstance(r, dict) and r.get("k") == "elem":
+                    r = {b_["id"]: b_ for b_ in g["cfg"]["blocks"]}[r["b"]]["elems"][r["i"]]["x"]
+                r = strip_casts(r) if r is not None else None
+                if not (isinstance(r, dict) and r.get("k") == "ref" and r.get("dk") == "param"):
+                    return None
+                if pid is not None and pid != r.get("id"):
+                    return None
+                pid = r.get("id")
+    if pid is None:
+        return None
+    return pid, recv
+
+
 def inline_once(caller, callees):
     """Inline the first inlinable call found in raw function `caller`; callees: name -> raw.  Returns True when something was inlined."""
     cfg = caller["cfg"]
@@ -127,12 +165,16 @@ def _splice(caller, by_id, B, i, call, g):
     subst = {}
     binds = []
     args = call["a"]
+    inout = _inout_param(B, i, g)
     for pi, p in enumerate(g["params"]):
         if pi >= len(args):
             continue
         arg = _resolve_local(by_id, args[pi])
         if p["n"] not in written and _simple(arg):
             subst[p["id"]] = arg
+        elif inout is not None and inout[0] == p["id"] and _same_var(strip_casts(arg), inout[1]):
+            # `v = helper(.., v, ..)` where every return of the helper hands back that parameter: the helper works on v itself
+            subst[p["id"]] = copy.deepcopy(inout[1])
         else:
             nm = p["n"] if p["n"] not in taken else "%s$%s%d" % (p["n"], g["name"], serial)
             rename[p["id"]] = nm
@@ -300,3 +342,25 @@ def inline_unknown(prog, known):
             prog.functions.pop(name, None)
     prog.inlined_helpers = sorted(used)
     return used
+
+
+def with_inlined(prog, f, names):
+    """A view of function f in which the calls to the named functions are spliced in (for rules that must read a callback and its
+    helper as one piece of code, however the maintainer has split it)."""
+    from .facts import Function
+    callees = {}
+    for n in names:
+        for g in prog.functions.get(n, []):
+            if g.raw.get("cfg") and g.file == f.file:
+                callees[n] = g.raw
+    if not callees:
+        return f
+    work = copy.deepcopy(f.raw)
+    n = 0
+    while n < 10 and inline_once(work, callees):
+        n += 1
+    if not n:
+        return f
+    g = Function(work, f.unit)
+    g.inlined = n
+    return g
